@@ -83,6 +83,23 @@ def random_histories(rng, T: int, n_atoms: int, n_sites: int, inner: bool):
     return s, i
 
 
+def exclusive(s, i):
+    """at most one atom per site and frame (pymatgen rejects occupancies > 1): later atoms yield"""
+    s = s.copy()
+    i = i.copy()
+    for t in range(s.shape[0]):
+        seen = set()
+        for a in range(s.shape[1]):
+            v = s[t, a]
+            if v == NOSITE:
+                continue
+            if v in seen:
+                s[t, a] = NOSITE
+                i[t, a] = NOSITE
+            seen.add(v)
+    return s, i
+
+
 # ---- Python-side specifications (the property's own definitions) ----
 
 
